@@ -192,6 +192,46 @@ def install(I):
         return (days * 86400 + hr * 3600 + mi * 60 + sec) & ((1 << 64) - 1)
     M['gmtime_r'] = gmtime_r_; M['timegm'] = timegm_
     M['prctl'] = lambda I, *a: 0              # thread naming
+    # C11 7.22.1.4 strtoll / strtoul for base 10 in the "C" locale: white space, optional sign, digits, clamp + ERANGE, *endptr
+    def is_space(I, b):
+        if not isinstance(b, Sym): return b in (32, 9, 10, 11, 12, 13)
+        return I.decide(I.icmp('eq', 8, b, 32), 'space') or (I.decide(I.icmp('uge', 8, b, 9), 'space') and I.decide(I.icmp('ule', 8, b, 13), 'space'))
+    def is_dig(I, b):
+        if not isinstance(b, Sym): return 48 <= b <= 57
+        return I.decide(I.icmp('uge', 8, b, 48), 'digit') and I.decide(I.icmp('ule', 8, b, 57), 'digit')
+    def strto(signed):
+        def f(I, nptr, endptr, base):
+            p = nptr
+            while is_space(I, I.load(p, _IT(8))): p += 1
+            neg = False; b = I.load(p, _IT(8))
+            if (b == 45) if not isinstance(b, Sym) else I.decide(I.icmp('eq', 8, b, 45), 'sign'): neg = True; p += 1
+            elif (b == 43) if not isinstance(b, Sym) else I.decide(I.icmp('eq', 8, b, 43), 'sign'): p += 1
+            start = p; val = z3.IntVal(0) if I.mode == 'INT' else None; cval = 0; anysym = False; ds = []
+            while True:
+                b = I.load(p, _IT(8))
+                if not is_dig(I, b): break
+                ds.append(b); p += 1
+                if len(ds) > 40: raise Unsupported('strtoll: more than 40 digits')
+            if not ds: p = nptr
+            if endptr: I.store(endptr, _P, p)
+            if not ds: return 0
+            if all(not isinstance(d, Sym) for d in ds):
+                v = int(bytes(ds)); v = -v if neg else v
+                lo, hi = (-(1 << 63), (1 << 63) - 1) if signed else (-(1 << 64) + 1, (1 << 64) - 1)
+                if v < lo or v > hi: I.store(I.models['__errno_location'](I), _IT(32), 34); v = (lo if v < lo else hi) if signed else hi
+                return v & ((1 << 64) - 1)
+            if I.mode != 'INT': raise Unsupported('strtoll on symbolic digits needs INT mode')
+            for d in ds: val = val * 10 + (I.term(d, 8) - 48)
+            val = -val if neg else val
+            lo, hi = (-(1 << 63), (1 << 63) - 1) if signed else (-(1 << 64) + 1, (1 << 64) - 1)
+            if I.decide(Sym(val > hi, 1), 'overflow'): r = z3.IntVal(hi); I.store(I.models['__errno_location'](I), _IT(32), 34)
+            elif I.decide(Sym(val < lo, 1), 'underflow'): r = z3.IntVal(lo if signed else hi); I.store(I.models['__errno_location'](I), _IT(32), 34)
+            else: r = val
+            return I.from_signed(z3.simplify(r), -(1 << 63), (1 << 64) - 1, 64) if False else Sym(z3.simplify(z3.If(r < 0, r + (1 << 64), r)), 64)
+        return f
+    M['strtoll'] = strto(True); M['strtoul'] = strto(False); M['strtol'] = strto(True); M['strtoull'] = strto(False)
+    M['isspace'] = lambda I, c: int(is_space(I, I.trunc(c, 32, 8) if isinstance(c, Sym) else c & 0xff))
+    M['isdigit'] = lambda I, c: int(is_dig(I, I.trunc(c, 32, 8) if isinstance(c, Sym) else c & 0xff))
     # std::exception_ptr: an opaque token for the in-flight exception
     def current_exception(I, ret): I.store(ret, _P, 0x7e57)
     M['_ZSt17current_exceptionv'] = current_exception
@@ -301,7 +341,7 @@ def install_more(I):
                 if I.decide(I.icmp('eq', 8, b, I.load(set_ + j, i8)), 'find_first_of'): return k
         return mask(64)
     M['_ZNKSt7__cxx1112basic_stringIcSt11char_traitsIcESaIcEE13find_first_ofEPKcmm'] = find_first_of
-    for n in ('_ZNSt13runtime_errorC2ERKS_', '_ZNSt13runtime_errorC1ERKS_', '_ZNSt11logic_errorC2ERKS_', '_ZNSt11range_errorC2EPKc', '_ZNSt11range_errorC1EPKc', '_ZNSt11range_errorD1Ev', '_ZNSt12out_of_rangeC1EPKc', '_ZNSt12out_of_rangeD1Ev', '_ZNSt13runtime_errorC1EPKc', '_ZNSt13runtime_errorD1Ev', '_ZNSt9exceptionD2Ev',
+    for n in ('_ZNSt11range_errorC1ERKNSt7__cxx1112basic_stringIcSt11char_traitsIcESaIcEEE', '_ZNSt13runtime_errorC2ERKS_', '_ZNSt13runtime_errorC1ERKS_', '_ZNSt11logic_errorC2ERKS_', '_ZNSt11range_errorC2EPKc', '_ZNSt11range_errorC1EPKc', '_ZNSt11range_errorD1Ev', '_ZNSt12out_of_rangeC1EPKc', '_ZNSt12out_of_rangeD1Ev', '_ZNSt13runtime_errorC1EPKc', '_ZNSt13runtime_errorD1Ev', '_ZNSt9exceptionD2Ev',
               '_ZNSt11logic_errorC2ERKNSt7__cxx1112basic_stringIcSt11char_traitsIcESaIcEEE'):
         M[n] = lambda I_, *a: None
 
